@@ -559,17 +559,18 @@ type Contracts struct {
 	Specs    map[string]*SpecFunc
 	Consts   map[string]string // named integer constants
 	Globals  []string
+	Regions  map[string]string // heap family of a slice-typed field -> read-only region of its backing arrays
 	Source   string
 }
 
 var clauseKeywords = map[string]bool{
-	"spec": true, "rec": true, "func": true, "lib": true, "iface": true, "requires": true, "ensures": true,
+	"spec": true, "rec": true, "func": true, "region": true, "lib": true, "iface": true, "requires": true, "ensures": true,
 	"loop": true, "returns": true, "modifies": true, "ghost": true, "oracle": true,
-	"const": true, "pure": true, "trusted": true, "assert": true, "assume": true, "deadcode": true, "applies": true, "witness": true,
+	"const": true, "pure": true, "trusted": true, "assert": true, "assume": true, "deadcode": true, "applies": true, "witness": true, "decreases": true,
 }
 
 func loadContracts(paths ...string) (*Contracts, error) {
-	cs := &Contracts{Funcs: map[string]*FuncContract{}, Specs: map[string]*SpecFunc{}, Consts: map[string]string{}}
+	cs := &Contracts{Funcs: map[string]*FuncContract{}, Specs: map[string]*SpecFunc{}, Consts: map[string]string{}, Regions: map[string]string{}}
 	for _, path := range paths {
 		data, err := os.ReadFile(path)
 		if err != nil {
@@ -617,6 +618,10 @@ func (cs *Contracts) parse(path, data string) error {
 		kw := w[0]
 		body := strings.TrimSpace(rc.text[len(kw):])
 		switch kw {
+		case "region":
+			// region TYPE.field : the arrays referenced by that slice field are never written after the field is set
+			cs.Regions["F$"+strings.TrimSpace(body)] = strings.TrimSpace(body)
+			cur = nil
 		case "const":
 			// const NAME = number
 			parts := strings.SplitN(body, "=", 2)
@@ -732,6 +737,12 @@ func (cs *Contracts) parse(path, data string) error {
 				}
 			case "oracle":
 				cur.Oracle = body
+			case "decreases":
+				e, err := parseExpr(body)
+				if err != nil {
+					return fail(err)
+				}
+				cur.Clauses = append(cur.Clauses, Clause{Kind: "recdec", E: e, Text: body})
 			case "witness":
 				cur.Witness = strings.TrimSpace(body)
 			case "applies":
